@@ -105,8 +105,8 @@ def _cfg_fire(tier):
     for cd in ((-25.0, 200.0) if tier == 'quick' else (-25.0, 200.0, 40.0, -170.0)):
         out.append({'carrier': 'A', 'step_ft': 100.0, 'wind': 'none', 'rlo': 101.0, 'rhi': 250.0, 'mode': 'step', 'unit': 'Foot', 'slo': 100.0, 'shi': 250.0, 'cant_deg': cd})
     # default step (range / 10 must be >= the integration step, as the statement requires): finer carriers, K = 22..26 steps
-    for (c, step, wind) in ([('A', 20.0, 'none'), ('B', 12.0, 'left')] if tier == 'quick' else
-                            [('A', 20.0, 'none'), ('A', 20.0, 'two'), ('B', 12.0, 'left'), ('C', 20.0, 'tail'), ('A', 2.0, 'none')]):
+    for (c, step, wind) in ([('A', 20.0, 'none'), ('B', 12.0, 'left'), ('Ainc', 20.0, 'none')] if tier == 'quick' else
+                            [('A', 20.0, 'none'), ('A', 20.0, 'two'), ('B', 12.0, 'left'), ('C', 20.0, 'tail'), ('A', 2.0, 'none'), ('Ainc', 20.0, 'none')]):
         for i in range(4 if tier == 'quick' else 12):
             lo = 10 * step * (1 + 0.05 * i)
             out.append({'carrier': c, 'step_ft': step, 'wind': wind, 'rlo': lo, 'rhi': 10 * step * (1 + 0.05 * (i + 1)), 'mode': 'nostep',
@@ -125,7 +125,12 @@ def _cfg_fire(tier):
 def c03_fire(ctx, carrier, step_ft, wind, rlo, rhi, mode, unit, slo=None, shi=None, cant_deg=0.0):
     p = pybc()
     U = p.Unit
-    extra = {'relative_deg': 30.0} if carrier == 'C' else ({'relative_deg': 50.0} if carrier == 'D' else {})     # D: slow lofted shot (the path flattens quickly)
+    if carrier == 'Ainc':
+        carrier, cant_deg = 'A', cant_deg       # carrier A with a 25 deg sight line (the default step must not depend on the look angle)
+        inc = {'look_deg': 25.0}
+    else:
+        inc = {}
+    extra = dict(inc, relative_deg=30.0) if carrier == 'C' else (dict(inc, relative_deg=50.0) if carrier == 'D' else dict(inc))     # D: slow lofted shot (the path flattens quickly)
     if cant_deg:
         extra = dict(extra, cant_deg=cant_deg)
     calc, shot = carriers.make(carrier, step_ft, wind, **extra)
@@ -157,6 +162,9 @@ def c03_fire(ctx, carrier, step_ft, wind, rlo, rhi, mode, unit, slo=None, shi=No
             res = calc.fire(shot, q(R), q(S), False, tau)
     rows = res.trajectory
     c = len(rows)
+    # the integration covered the requested range: the last point fed to the recorder lies beyond it
+    # the integration reached the requested range: the last point fed to the recorder lies within one step of it (or beyond)
+    ctx.check('integration_reaches_the_range', spy[-1]['p'].x + 1.06 * (step_ft / 2) >= R)
     adv = max((spy[j + 1]['p'].x - spy[j]['p'].x) for j in range(len(spy) - 1)) if len(spy) > 1 else 0.0
     dts = max((spy[j + 1]['t'] - spy[j]['t']) for j in range(len(spy) - 1)) if len(spy) > 1 else 0.0
     d = [r.distance >> U.Foot for r in rows]
@@ -183,3 +191,32 @@ def c03_fire(ctx, carrier, step_ft, wind, rlo, rhi, mode, unit, slo=None, shi=No
     for k in range(c - 1):
         ctx.check('strictly_increasing', (d[k + 1] > d[k]) & (t[k + 1] > t[k]) if mode != 'time' else (t[k + 1] > t[k]) & (d[k + 1] >= d[k]),
                   info={'k': k})
+
+
+def _cfg_fw(tier):
+    return [{'kind': k} for k in ('metric_pairs', 'lofted_default_step')]
+
+
+@harness('C03.float_witness', 'C03', configs=_cfg_fw, functions=FUNCS, must_reach=['check:row_count_on_concrete_cards'],
+         bounds='TEST STRENGTH (concrete runs; the symbolic harnesses model the record arithmetic over the reals, so defects that need the floating point rounding of '
+                'the ACCUMULATED record distance are invisible to them): carrier A at the default 0.5 ft step on 14 range/step pairs in m, km, yd, ft that divide evenly; '
+                'carrier D (300 fps) lofted at 45 and 60 deg, default-step cards for every range 80..160 yd: row count and last row at the range')
+def c03_float_witness(ctx, kind):
+    p = pybc()
+    U = p.Unit
+    if kind == 'metric_pairs':
+        calc, shot = carriers.make('A', 0.5, 'none')
+        pairs = [(U.Meter, 1000, 100), (U.Meter, 500, 50), (U.Meter, 900, 100), (U.Kilometer, 2, 0.1), (U.Meter, 800, 100), (U.Meter, 300, 30),
+                 (U.Yard, 1000, 100), (U.Yard, 700, 70), (U.Foot, 900, 90), (U.Foot, 1000, 100), (U.Meter, 70, 7), (U.Meter, 1100, 110), (U.Kilometer, 1.2, 0.1), (U.Yard, 330, 33)]
+        for (u, rng, st) in pairs:
+            rows = calc.fire(shot, u(rng), u(st)).trajectory
+            n = int(round(rng / st)) + 1
+            ctx.check('row_count_on_concrete_cards', len(rows) in (n, n + 1) and abs((rows[n - 1].distance >> u) - rng) <= 1e-9 * rng,
+                      info={'unit': u.name, 'range': rng, 'step': st, 'rows': len(rows)})
+    else:
+        for elev in (45.0, 60.0):
+            calc, shot = carriers.make('D', 0.5, 'none', relative_deg=elev)
+            for yd in range(80, 161):
+                rows = calc.fire(shot, U.Yard(yd)).trajectory
+                ctx.check('row_count_on_concrete_cards', len(rows) == 11 and abs((rows[-1].distance >> U.Yard) - yd) <= 1e-9 * yd,
+                          info={'elevation': elev, 'range_yd': yd, 'rows': len(rows)})
